@@ -85,7 +85,7 @@ var ntLeanReserved = map[string]bool{"at": true, "from": true, "fun": true, "end
 	"mut": true, "try": true, "catch": true, "finally": true, "macro": true, "syntax": true, "structure": true,
 	"inductive": true, "class": true, "abbrev": true, "example": true, "axiom": true, "private": true,
 	"protected": true, "partial": true, "unsafe": true, "mutual": true, "infix": true, "notation": true,
-	"bind": true, "shl": true, "shrU": true, "shrS": true, "mapRes": true, "Res": true, "Sx": true, "true": true, "false": true, "calc": true, "suffices": true,
+	"tag_": true, "r_": true, "bind": true, "shl": true, "shrU": true, "shrS": true, "mapRes": true, "Res": true, "Sx": true, "true": true, "false": true, "calc": true, "suffices": true,
 	"nomatch": true, "nofun": true, "using": true, "local": true, "set_option": true, "attribute": true}
 
 // ---------------------------------------------------------------- representation of Go types
